@@ -341,6 +341,16 @@ Fixpoint run (p : params) (s : st) (ls : list label) : option st :=
   | l :: r => match step p s l with Some s' => run p s' r | None => None end
   end.
 
+Fixpoint run_old (p : params) (s : st) (ls : list label) : option st :=
+  match ls with
+  | [] => Some s
+  | l :: r => match step_old p s l with Some s' => run_old p s' r | None => None end
+  end.
+
+(* executable well-formedness of a task set's parameters and of the adding thread *)
+Definition wf_paramsb (p : params) (t0 : nat) : bool :=
+  (1 <=? P_rtr p) && (1 <=? P_rts p) && (0 <=? P_n p) && Nat.ltb t0 (P_T p).
+
 Inductive reachable (p : params) (t0 : nat) : st -> Prop :=
 | reach_init : reachable p t0 (init p t0)
 | reach_step : forall s l s', reachable p t0 s -> step p s l = Some s' -> reachable p t0 s'.
@@ -381,7 +391,10 @@ Definition gupd (g : gstate) (k : nat) (v : option (params * st)) : gstate :=
   fun j => if Nat.eqb j k then v else g j.
 Definition gstep (g : gstate) (l : glabel) : option gstate :=
   match l with
-  | GNew k p t0 => match g k with None => Some (gupd g k (Some (p, init p t0))) | Some _ => None end
+  | GNew k p t0 => match g k with
+                   | None => if wf_paramsb p t0 then Some (gupd g k (Some (p, init p t0))) else None
+                   | Some _ => None
+                   end
   | GStep k l => match g k with
                  | Some (p, s) => match step p s l with Some s' => Some (gupd g k (Some (p, s'))) | None => None end
                  | None => None
